@@ -84,7 +84,17 @@ pub struct CardCfg {
     /// further defined bits of the first OCR byte a card may set besides power-up status and CCS (UHS-II, S18A)
     #[serde(default)]
     pub ocr_extra: u8,
+    /// the three don't-care bits of the data-response token (xxx0sss1) as this card sends them
+    #[serde(default = "seven")]
+    pub resp_hi: u8,
+    /// the card answers CMD59 (CRC_ON_OFF) with "illegal command": a host that was asked for CRC must not go on without
+    #[serde(default)]
+    pub cmd59_illegal: bool,
     pub adversary: Adversary,
+}
+
+fn seven() -> u8 {
+    7
 }
 
 impl CardCfg {
@@ -444,9 +454,14 @@ impl SimCard {
                 }
             }
             (59, false) => {
-                self.crc_on = arg & 1 == 1;
-                let r = self.r1();
-                self.queue_response(&[r]);
+                if self.cfg.cmd59_illegal {
+                    let r = self.r1() | 0x04;
+                    self.queue_response(&[r]);
+                } else {
+                    self.crc_on = arg & 1 == 1;
+                    let r = self.r1();
+                    self.queue_response(&[r]);
+                }
             }
             (8, false) => {
                 if self.stage != 1 {
@@ -729,6 +744,8 @@ impl SimCard {
                         self.waddr += 1;
                     }
                     { self.tx.clear(); self.watch = None; }
+                    // bits 7..5 of the data-response token are don't-care: this card's choice
+                    let token = (token & 0x1F) | ((self.cfg.resp_hi & 7) << 5);
                     self.tx.push_back(token);
                     self.busy_left = if token & 0x1F == 0x05 { self.latency(50_000) } else { 0 };
                     self.rx = if !multi { Rx::Idle } else if token & 0x1F == 0x05 { Rx::WriteToken { multi } } else { Rx::WriteAborted };
